@@ -32,6 +32,9 @@ fam({'C15': ('main', 'all')},
 fam({'C14': ('main', 'all')},
     driver='workers', tv='WorkersTV', mc_quick=[('WorkersL2', 'WorkersL2')], mc_thorough=[('WorkersL2', 'WorkersL2_big')],
     n=(60, 200, 1500, 5000))
+fam({'C17': ('main', 'all')},
+    driver='worker', tv='WorkerTV', mc_quick=[('WorkerL2', 'WorkerL2')], mc_thorough=[('WorkerL2', 'WorkerL2_big')],
+    n=(80, 300, 2000, 6000))
 
 
 def sig_of(rej):
